@@ -778,8 +778,8 @@ def run(ctx: Any, prog: Program) -> None:
                     par = db.parents.get(sub)
                     direct = isinstance(par, (ast.Assign, ast.AnnAssign, ast.keyword, ast.Return)) or (isinstance(par, ast.Call) and sub in par.args)
                     ctx.check('C16.Q2', direct, db, sub, f'`{U(par)[:70]}`: the decoded member is transformed before it is stored', func=fn_name, text=f'{tblname}_ORDER result stored as-is')
-    if n_idx < 7:
-        raise AnalysisError(f'only {n_idx} uses of the *_INDEX / *_ORDER tables found (7 confirmed by hand)')
+    if n_idx < 5:
+        raise AnalysisError(f'only {n_idx} uses of the *_INDEX / *_ORDER tables found (7 confirmed by hand; a hoisted lookup shared by two branches counts once)')
     ef = fold.enum_table('EntFlags')
     ent_types = ffold.enum_table('EntityTypes')
     mask = ef.members['MASK_TYPE'].value
